@@ -85,8 +85,8 @@ Definition hash3_x64_128_h1 (key : list Z) : Z :=
   (* length & 15 = number of tail bytes; case >= 9 mixes k2 into h2, case >= 1 mixes k1 into h1 *)
   let h2 := if (8 <? Z.of_nat (List.length tail)) then jxor h2 (jmix2 (jtail_word (skipn 8 tail) 0)) else h2 in
   let h1 := if (0 <? Z.of_nat (List.length tail)) then jxor h1 (jmix1 (jtail_word (firstn 8 tail) 0)) else h1 in
-  let h1 := jxor h1 length in
-  let h2 := jxor h2 length in
+  let h1 := jxor h1 (length mod W) in            (* h1 ^= length: the int widened to long, as a residue *)
+  let h2 := jxor h2 (length mod W) in
   let h1 := jadd h1 h2 in
   let h2 := jadd h2 h1 in
   let h1 := jfmix h1 in
@@ -144,26 +144,39 @@ Definition digit_val (c : Z) : Z := c - 48.
 Definition is_dec_digit (c : Z) : Prop := 48 <= c <= 57.
 Definition dec_value (ds : list Z) : Z := fold_left (fun acc c => acc * 10 + digit_val c) ds 0.
 
-(* the canonical rendering: no leading zeros; fuel bounds the number of digits *)
+(* the canonical rendering: no leading zeros.  [fuel] bounds the number of digits; a number has at most
+   as many decimal digits as binary digits, so log2 n + 1 is always enough *)
 Fixpoint dec_digits (fuel : nat) (n : Z) : list Z :=
   match fuel with
   | O => []
   | S f => if n <? 10 then [48 + n] else dec_digits f (n / 10) ++ [48 + n mod 10]
   end.
-Definition to_string (fuel : nat) (v : Z) : list Z :=
-  if v <? 0 then 45 :: dec_digits fuel (- v) else dec_digits fuel v.
+Definition dec_string (n : Z) : list Z := dec_digits (S (Z.to_nat (Z.log2 n))) n.
+(* Long.toString(v) / BigInteger.toString() *)
+Definition to_string (v : Z) : list Z :=
+  if v <? 0 then 45 :: dec_string (- v) else dec_string v.
 
 (* ---- CompositeType partition keys --------------------------------------------------------------- *)
 (* one component: unsigned 16-bit big-endian length, the bytes, end-of-component 0 *)
 Definition component (c : list Z) : list Z :=
   let n := Z.of_nat (length c) in [n / 256; n mod 256] ++ c ++ [0].
 Definition composite_key (comps : list (list Z)) : list Z := concat (map component comps).
+(* Cassandra limits a key component to 65535 bytes (FBUtilities.MAX_UNSIGNED_SHORT): the length is a short *)
+Definition short_comp (c : list Z) : Prop := Z.of_nat (length c) < 2 ^ 16.
 
 (* the partition key Cassandra hashes: the single column's serialized value, or the composite *)
 Definition partition_key (comps : list (list Z)) : list Z :=
   match comps with
   | [c] => c
   | _ => composite_key comps
+  end.
+
+(* the value bound to a column: a statement may bind the same column more than once (a = ? AND a = ?);
+   the driver documents "pick the first" *)
+Fixpoint bound_value (name : list Z) (cols : list (list Z)) (vals : list (list Z)) : option (list Z) :=
+  match cols, vals with
+  | c :: cs, v :: vs => if list_eq_dec Z.eq_dec name c then Some v else bound_value name cs vs
+  | _, _ => None
   end.
 
 (* CompositeType.split-style reader: repeat { length; bytes; one byte } until the input is exhausted *)
@@ -184,6 +197,11 @@ Fixpoint composite_split (fuel : nat) (b : list Z) : option (list (list Z)) :=
       end
   end.
 Definition composite_decode (b : list Z) : option (list (list Z)) := composite_split (S (length b)) b.
+
+Example to_string_examples :
+  to_string 0 = [48] /\ to_string (-9223372036854775808) = [45;57;50;50;51;51;55;50;48;51;54;56;53;52;55;55;53;56;48;56]
+  /\ to_string 1053604476080545076 = [49;48;53;51;54;48;52;52;55;54;48;56;48;53;52;53;48;55;54].
+Proof. vm_compute. repeat split; reflexivity. Qed.
 
 (* ---- anchors: vectors that did not come from this driver ------------------------------------- *)
 Fixpoint series (n : nat) : list Z :=      (* "0123456789012..." of length n, as built by the Java generator *)
